@@ -29,11 +29,21 @@ gets a fresh serial `bindSer` (0 = never bound), so both a re-created and a re-b
 visible.  The daemon never `dup`s, so descriptor and open file correspond one to one, and what a
 child inherits is a sub-table of the daemon's table at the moment of the fork, same numbers.
 
-Parameters (not modelled): all sockets are `SOCK_STREAM` (so `bind_and_listen` listens), `bind`
-and `listen` succeed on a fresh socket (no `EADDRINUSE`), `replace = False`; the texts `cmd` /
-`args` refer to no other `circus.*` key than `circus.sockets.*` (the general substitution is C13);
-`shell = False`; `stdin_socket = None`; the real `Popen` does not fail; hooks are absent.
-`IS_WINDOWS` is false.  Descriptors 0..2 (stdio) are outside the child view.
+Socket types: `SOCK_STREAM`, `SOCK_SEQPACKET` (both are put into the listening state by
+`bind_and_listen`) and `SOCK_DGRAM` (bound only).  Unix sockets have a file: `files` is the set of
+unix-socket paths that exist (`bind` creates the path, `CircusSocket.close` removes it when it
+exists, `replace = True` unlinks an existing path before binding, `replace = False` raises).
+`stdin_socket`: the `os.dup2(fd, 0)` of `preexec_fn` is the record field `fd0`.
+`Arbiter.reload_from_config` is modelled as far as the sockets go (`reloadSockets`): deleted,
+changed (= deleted + added) and added sockets; the iteration order of the Python sets is a
+parameter of the op.
+
+Parameters (not modelled): `bind` and `listen` succeed on a fresh socket whose unix path is free
+(no `EADDRINUSE`); the texts `cmd` / `args` refer to no other `circus.*` key than
+`circus.sockets.*` (the general substitution is C13); `shell = False`; the real `Popen` fails only
+through `preexec_fn`; hooks are absent; `close_child_stdin` is the default (stdin is /dev/null
+unless `stdin_socket` puts a socket there).  `IS_WINDOWS` is false.  Descriptors 1, 2 are outside
+the child view, descriptor 0 is in it only as `fd0`.
 -/
 namespace Circus.Sockets
 open Circus.GnuArgs Circus.Shlex
@@ -85,13 +95,34 @@ def closeAll (t : FdTable) (fds : List Nat) : FdTable := fds.foldl close t
 
 end FdTable
 
-/-- a `CircusSocket` object -/
-structure Sock where
+/-- `type=` of a socket section -/
+inductive SockType where
+  | stream | seqpacket | dgram
+deriving DecidableEq, Repr
+
+/-- `if self.socktype in (socket.SOCK_STREAM, socket.SOCK_SEQPACKET): self.listen(self.backlog)` -/
+def SockType.listens : SockType → Bool
+  | .stream => true
+  | .seqpacket => true
+  | .dgram => false
+
+/-- a socket of the configuration (`s._cfg`) -/
+structure Spec where
   name : Str
   /-- `self.so_reuseport` -/
   reuseport : Bool
   /-- identity of `(host, port)` / `path` -/
   addr : Nat
+  typ : SockType := .stream
+  /-- `path is not None` (AF_UNIX) -/
+  unix : Bool := false
+  replace : Bool := false
+  /-- identity of the remaining options (backlog, umask, ...) -/
+  opts : Nat := 0
+deriving DecidableEq, Repr
+
+/-- a `CircusSocket` object -/
+structure Sock extends Spec where
   /-- `fileno()`; `none` = closed (Python answers -1) -/
   fd : Option Nat
 deriving DecidableEq, Repr
@@ -106,6 +137,8 @@ structure Watcher where
   pipeOut : Bool
   pipeErr : Bool
   maxRetry : Nat
+  /-- `stdin_socket` -/
+  stdinSocket : Option Str := none
 deriving Repr
 
 /-- a live worker (`Watcher.processes` of all watchers, in spawn order) -/
@@ -148,6 +181,11 @@ structure Rec where
   inherited : FdTable
   /-- ghost: the per-worker `so_reuseport` descriptors (`Process._sockets`) -/
   temp : List Nat
+  /-- ghost: `watcher.stdin_socket` -/
+  stdinSocket : Option Str
+  /-- the daemon's open file `preexec_fn` puts on descriptor 0 of the child (`os.dup2(fd, 0)`);
+      `none` = no daemon descriptor (stdin is /dev/null) -/
+  fd0 : Option Desc
 deriving Repr
 
 structure State where
@@ -164,6 +202,10 @@ structure State where
   phase : Phase
   /-- newest first -/
   log : List Rec
+  /-- the unix-socket paths that exist in the file system -/
+  files : List Nat
+  /-- ghost: the paths the daemon has ever bound a socket to -/
+  made : List Nat
 deriving Repr
 
 /-! ### kernel calls -/
@@ -186,28 +228,38 @@ def otherDesc (inheritable : Bool) (id : Nat) : Desc :=
 /-! ### `circus/sockets.py` -/
 
 /-- `CircusSocket(...)` + `self[sock.name] = sock` for a name that is not yet a key -/
-def mkSocket (s : State) (name : Str) (reuseport : Bool) (addr : Nat) : State :=
+def mkSocket (s : State) (k : Spec) : State :=
   let (s1, fd) := alloc s newSocketDesc
-  { s1 with socks := s1.socks ++ [{ name := name, reuseport := reuseport, addr := addr, fd := some fd }] }
+  { s1 with socks := s1.socks ++ [{ toSpec := k, fd := some fd }] }
 
 inductive BindErr where
   /-- `EBADF`: the socket object is closed -/
   | closed
-  /-- `EINVAL` (inet) / "already exists" (unix): the socket is bound already -/
+  /-- `EINVAL`: the socket is bound already -/
   | bound
+  /-- `OSError("%r already exists ...")`: the unix path exists and `replace` is off -/
+  | pathExists
 deriving DecidableEq, Repr
 
-/-- `CircusSocket.bind_and_listen()` on the socket with descriptor `fd` -/
-def bindAndListen (s : State) (addr : Nat) (fd : Option Nat) : Except BindErr State :=
+/-- `CircusSocket.bind_and_listen()` on the socket object `(k, fd)`.  A unix socket looks at its
+    path first (raise, or `os.unlink` with `replace`), then `bind`, then `listen` for the
+    connection-oriented types.  An error leaves the state reached so far. -/
+def bindAndListen (s : State) (k : Spec) (fd : Option Nat) : State × Option BindErr :=
+  let there := k.unix && s.files.contains k.addr
+  if there && !k.replace then (s, some .pathExists) else
+  let s0 : State := if there then { s with files := s.files.filter (· ≠ k.addr) } else s
   match fd with
-  | none => .error .closed
+  | none => (s0, some .closed)
   | some n =>
-    match s.fdt.get n with
-    | none => .error .closed
+    match s0.fdt.get n with
+    | none => (s0, some .closed)
     | some d =>
-      if d.bindSer ≠ 0 then .error .bound else
-      .ok { s with fdt := s.fdt.put n (some { d with addr := some addr, bindSer := s.nextBind, listening := true }),
-                   nextBind := s.nextBind + 1 }
+      if d.bindSer ≠ 0 then (s0, some .bound) else
+      ({ s0 with fdt := s0.fdt.put n (some { d with addr := some k.addr, bindSer := s0.nextBind,
+                                                    listening := k.typ.listens }),
+                 nextBind := s0.nextBind + 1,
+                 files := if k.unix then k.addr :: s0.files else s0.files,
+                 made := if k.unix then k.addr :: s0.made else s0.made }, none)
 
 /-- `CircusSockets.bind_and_listen_all()`: the first error propagates out of the loop (second
     component), the sockets bound before it stay bound -/
@@ -215,19 +267,20 @@ def bindAndListenAll (s : State) : List Sock → State × Option BindErr
   | [] => (s, none)
   | k :: ks =>
     if k.reuseport then bindAndListenAll s ks        -- "should not be bound at this point"
-    else match bindAndListen s k.addr k.fd with
-      | .error e => (s, some e)
-      | .ok s1 => bindAndListenAll s1 ks
+    else match bindAndListen s k.toSpec k.fd with
+      | (s1, some e) => (s1, some e)
+      | (s1, none) => bindAndListenAll s1 ks
+
+/-- `CircusSocket.close()`: `socket.close()`, then `os.remove(self.path)` when the path exists -/
+def closeObj (s : State) (k : Sock) : State :=
+  { s with fdt := (match k.fd with
+                   | some fd => s.fdt.close fd
+                   | none => s.fdt),
+           files := if k.unix then s.files.filter (· ≠ k.addr) else s.files }
 
 /-- `sock.close()` for every socket of the dict (`CircusSockets.close_all`) -/
-def closeSock (t : FdTable) (k : Sock) : FdTable :=
-  match k.fd with
-  | some fd => t.close fd
-  | none => t
-
 def closeAllSocks (s : State) : State :=
-  { s with fdt := s.socks.foldl closeSock s.fdt,
-           socks := s.socks.map (fun k => { k with fd := none }) }
+  { s.socks.foldl closeObj s with socks := s.socks.map (fun k => { k with fd := none }) }
 
 /-! ### `Process._get_sockets_fds` -/
 
@@ -255,16 +308,16 @@ structure Attempt where
   temp : List Nat
 
 /-- `CircusSocket.load_from_config(s._cfg)` + `bind_and_listen()`: the socket of one worker -/
-def newBoundSocket (s : State) (addr : Nat) : State × Nat :=
+def newBoundSocket (s : State) (k : Spec) : State × Nat :=
   let fd := s.fdt.lowestFree
-  ({ s with fdt := s.fdt.put fd (some { id := s.nextId, kind := .sock, inheritable := true, listening := true,
-                                        addr := some addr, bindSer := s.nextBind }),
+  ({ s with fdt := s.fdt.put fd (some { id := s.nextId, kind := .sock, inheritable := true,
+                                        listening := k.typ.listens, addr := some k.addr, bindSer := s.nextBind }),
             nextId := s.nextId + 1, nextBind := s.nextBind + 1 }, fd)
 
 /-- body of `for sn, s in reuseport_sockets:` -/
 def reuseStep (cmd : Str) (a : Attempt) (k : Sock) : Attempt :=
   if isInfix (socketsRef k.name) cmd then
-    let (s1, fd) := newBoundSocket a.s k.addr
+    let (s1, fd) := newBoundSocket a.s k.toSpec
     { s := s1, fds := setFd a.fds k.name (some fd), temp := a.temp ++ [fd] }
   else a
 
@@ -323,39 +376,71 @@ def allocPipes (s : State) (out err : Bool) : State × List Nat × List Nat :=
 /-- `cmd = util.replace_gnu_args(self.cmd, env=self.env)` with `self.env = None` -/
 def watcherCmd (w : Watcher) : Str := replaceGnuArgs [([101, 110, 118], .scalar pyNone)] w.cmd
 
+/-- `Watcher._get_stdin_socket_fd()` + `os.dup2(fd, 0)` in `preexec_fn`, i.e. in the child after the
+    fork: what ends up on descriptor 0.  `error` = the child raised (`stdin_socket` is no key of the
+    dict, or the socket object is closed: `dup2(-1, 0)`), `Popen` raises `SubprocessError`. -/
+def stdinDesc (s : State) (w : Watcher) : Except Unit (Option Desc) :=
+  match w.stdinSocket with
+  | none => .ok none
+  | some n =>
+    match s.socks.find? (fun k => k.name = n) with
+    | none => .error ()
+    | some k =>
+      match k.fd with
+      | none => .error ()
+      | some fd =>
+        match s.fdt.get fd with
+        | none => .error ()
+        | some d => .ok (some d)
+
+inductive TryRes where
+  | ok
+  /-- `format_args` raised `ValueError`: caught by `spawn_process`, next turn of the loop -/
+  | retry
+  /-- `preexec_fn` raised in the child: `Popen` raises `SubprocessError`, nobody catches it -/
+  | raised
+deriving DecidableEq, Repr
+
 /-- one turn of the `while nb_tries < self.max_retry` loop of `spawn_process`:
     `Process(...)` = `_get_sockets_fds`, `format_args`, `Popen`, `self._sockets = []`.
-    `false` = `format_args` raised `ValueError`: the half-built `Process` is dropped, its sockets
-    are closed with it, `Popen` has not been called. -/
-def trySpawn (s : State) (wi : Nat) (w : Watcher) (wid : Nat) : State × Bool :=
+    `retry`: the half-built `Process` is dropped, its sockets are closed with it, `Popen` has not
+    been called.  `raised`: `Popen` made its pipes, forked, the child failed in `preexec_fn`; the
+    pipes are closed again, the `Process` is dropped. -/
+def trySpawn (s : State) (wi : Nat) (w : Watcher) (wid : Nat) : State × TryRes :=
   let a := getSocketsFds s w
   match formatArgv a.fds (watcherCmd w) w.args with
-  | .error _ => (closeFds a.s a.temp, false)
+  | .error _ => (closeFds a.s a.temp, .retry)
   | .ok argv =>
     let (s1, rfds, wfds) := allocPipes a.s w.pipeOut w.pipeErr
-    let r : Rec := { w := wi, useSockets := w.useSockets, phase := s.phase, socketsFds := a.fds,
-                     cmd := watcherCmd w, args := w.args, argv := argv,
-                     closeFds := !w.useSockets, inherited := inherit (!w.useSockets) s1.fdt, temp := a.temp }
-    let s2 := closeFds s1 wfds          -- Popen closes the child's ends in the parent
-    let s3 := closeFds s2 a.temp        -- self._sockets = []
-    ({ s3 with procs := s3.procs ++ [{ pid := s3.nextPid, w := wi, wid := wid, pipeFds := rfds }],
-               nextPid := s3.nextPid + 1, log := r :: s3.log }, true)
-
-/-- the retry loop; `false` = `spawn_process` returned `False` -/
-def spawnLoop : Nat → State → Nat → Watcher → Nat → State × Bool
-  | 0, s, _, _, _ => (s, false)
-  | n + 1, s, wi, w, wid =>
-    match trySpawn s wi w wid with
-    | (s1, true) => (s1, true)
-    | (s1, false) => spawnLoop n s1 wi w wid
+    match stdinDesc s1 w with
+    | .error _ => (closeFds (closeFds s1 (rfds ++ wfds)) a.temp, .raised)
+    | .ok fd0 =>
+      let r : Rec := { w := wi, useSockets := w.useSockets, phase := s.phase, socketsFds := a.fds,
+                       cmd := watcherCmd w, args := w.args, argv := argv,
+                       closeFds := !w.useSockets, inherited := inherit (!w.useSockets) s1.fdt, temp := a.temp,
+                       stdinSocket := w.stdinSocket, fd0 := fd0 }
+      let s2 := closeFds s1 wfds          -- Popen closes the child's ends in the parent
+      let s3 := closeFds s2 a.temp        -- self._sockets = []
+      ({ s3 with procs := s3.procs ++ [{ pid := s3.nextPid, w := wi, wid := wid, pipeFds := rfds }],
+                 nextPid := s3.nextPid + 1, log := r :: s3.log }, .ok)
 
 inductive SpawnRes where
   | ok
   /-- `spawn_process` returned `False` -/
   | failed
-  /-- `_nextwid` raised `RuntimeError("Process count > numproceses*2")`: propagates to the caller -/
+  /-- an exception leaves `spawn_process`: `RuntimeError("Process count > numproceses*2")` of
+      `_nextwid`, or `SubprocessError` of `Popen` -/
   | raised
 deriving DecidableEq, Repr
+
+/-- the retry loop -/
+def spawnLoop : Nat → State → Nat → Watcher → Nat → State × SpawnRes
+  | 0, s, _, _, _ => (s, .failed)
+  | n + 1, s, wi, w, wid =>
+    match trySpawn s wi w wid with
+    | (s1, .ok) => (s1, .ok)
+    | (s1, .raised) => (s1, .raised)
+    | (s1, .retry) => spawnLoop n s1 wi w wid
 
 def procsOf (s : State) (wi : Nat) : List Proc := s.procs.filter (fun p => p.w == wi)
 
@@ -366,10 +451,7 @@ def spawnProcess (s : State) (wi : Nat) : State × SpawnRes :=
   | some w =>
     match FormatArgs.nextWid w.numprocesses ((procsOf s wi).map (·.wid)) with
     | none => (s, .raised)
-    | some wid =>
-      match spawnLoop w.maxRetry s wi w wid with
-      | (s1, true) => (s1, .ok)
-      | (s1, false) => (s1, .failed)
+    | some wid => spawnLoop w.maxRetry s wi w wid
 
 /-- `for i in range(n): spawn_process()`, stopping at the first `False` (`spawn_processes`) or raise -/
 def spawnN : Nat → State → Nat → State
@@ -428,7 +510,58 @@ inductive Op where
   | closeOther (i : Nat)
   /-- `stop_controller_and_close_sockets()` -/
   | stop
+  /-- the socket part of `Arbiter.reload_from_config()`: `new` = the socket sections of the new
+      file; `dorder`, `aorder` = the order in which the Python sets `deleted_sn`, `added_sn` are
+      iterated -/
+  | reloadSockets (new : List Spec) (dorder aorder : List Str)
 deriving DecidableEq, Repr
+
+/-! ### `Arbiter.reload_from_config`, sockets -/
+
+/-- the elements of `xs` in the order `order` lists them, the rest behind -/
+def reorder (order xs : List Str) : List Str :=
+  (order.filter (fun n => xs.contains n)).eraseDups ++ xs.filter (fun n => !order.contains n)
+
+/-- `s = self.get_socket(n); s.close(); del self.sockets[s.name]` -/
+def delSock (s : State) (n : Str) : State :=
+  match s.socks.find? (fun k => k.name = n) with
+  | none => s
+  | some k => { closeObj s k with socks := s.socks.filter (fun k' => k'.name ≠ n) }
+
+/-- `s = CircusSocket.load_from_config(cfg); s.bind_and_listen(); self.sockets[s.name] = s`.
+    When `bind_and_listen` raises the new object is dropped: its descriptor is closed by the
+    finalizer, `CircusSocket.close()` is not called. -/
+def addSock (s : State) (k : Spec) : State × Option BindErr :=
+  let (s1, fd) := alloc s newSocketDesc
+  match bindAndListen s1 k (some fd) with
+  | (s2, some e) => (closeFds s2 [fd], some e)
+  | (s2, none) => ({ s2 with socks := s2.socks ++ [{ toSpec := k, fd := some fd }] }, none)
+
+/-- `for n in added_sn:`; an `OSError` ends the reload -/
+def addLoop (new : List Spec) : State → List Str → State
+  | s, [] => s
+  | s, n :: ns =>
+    match new.find? (fun k => k.name = n) with
+    | none => addLoop new s ns
+    | some k =>
+      match addSock s k with
+      | (s1, some _) => s1
+      | (s1, none) => addLoop new s1 ns
+
+/-- names of the sockets whose section differs from the `_cfg` of the object in the dict -/
+def changedNames (s : State) (new : List Spec) : List Str :=
+  (s.socks.filter (fun k => match new.find? (fun k' => k'.name = k.name) with
+                            | some k' => k' ≠ k.toSpec
+                            | none => false)).map (·.name)
+
+def reloadSockets (s : State) (new : List Spec) (dorder aorder : List Str) : State :=
+  let current := s.socks.map (·.name)
+  let newSn := new.map (·.name)
+  let added0 := newSn.filter (fun n => !current.contains n)
+  let deleted0 := current.filter (fun n => !newSn.contains n)
+  let changed := changedNames s new
+  let s1 := (reorder dorder (deleted0 ++ changed)).foldl delSock s
+  addLoop new s1 (reorder aorder (added0 ++ changed))
 
 def step (s : State) : Op → State
   | .initialize =>
@@ -457,23 +590,17 @@ def step (s : State) : Op → State
     | some fd => { closeFds s [fd] with others := s.others.eraseIdx i }
     | none => s
   | .stop => { closeAllSocks s with phase := .stopped }
+  | .reloadSockets new dorder aorder => reloadSockets s new dorder aorder
 
 def run (s : State) : List Op → State
   | [] => s
   | o :: os => run (step s o) os
 
-/-- a socket of the configuration -/
-structure Spec where
-  name : Str
-  reuseport : Bool
-  addr : Nat
-deriving DecidableEq, Repr
-
-/-- the daemon before `Arbiter.initialize`: `t0` is whatever the process has open already, the
-    `CircusSocket` objects are created in the order of `specs` -/
-def setup (t0 : FdTable) (specs : List Spec) (ws : List Watcher) : State :=
-  specs.foldl (fun s k => mkSocket s k.name k.reuseport k.addr)
+/-- the daemon before `Arbiter.initialize`: `t0` is whatever the process has open already, `f0` the
+    unix-socket paths that exist already, the `CircusSocket` objects are created in the order of `specs` -/
+def setup (t0 : FdTable) (specs : List Spec) (ws : List Watcher) (f0 : List Nat := []) : State :=
+  specs.foldl mkSocket
     { fdt := t0, nextId := 1, nextBind := 1, socks := [], watchers := ws, procs := [], nextPid := 1,
-      others := [], phase := .fresh, log := [] }
+      others := [], phase := .fresh, log := [], files := f0, made := [] }
 
 end Circus.Sockets
